@@ -344,9 +344,9 @@ class Standardize(PostProcessor):
             np.save(wfilename, self._stats)
         elif wfilename.endswith(".npz"):
             array = dict()
-            if overwrite:
+            if not overwrite:
                 try:
-                    array = np.load(wfilename)
+                    array = dict(np.load(wfilename))
                 except IOError:
                     pass
             if key is None:
